@@ -17,7 +17,8 @@ class C14(DevProp):
     soak = True
     monitor_name = "C14 monitor (signal iff press completing the sequence; completing press silent and state-neutral)"
     correspondence_name = "C14 view (per-event termination-signal count of model vs implementation)"
-    rule = ("exit sequences of length 0-3 drawn from note keys, action keys and unmapped keys; every press order of the sequence keys "
+    rule = ("exit sequences of length 0-3 drawn from note keys, action keys and unmapped keys; disturbances with the sequence partly held "
+            "(a tap of every action key, keys congruent modulo 64/128/32, autorepeat events, an up/down chord) before the completing press; every press order of the sequence keys "
             "(exhaustive for length <= 3) with releases/re-presses and other keys interleaved, plus random alternating histories; "
             "non-trivial = distinct cases in which the implementation raised the signal at least once")
 
@@ -60,6 +61,37 @@ class C14(DevProp):
                     ev.append(k(c, 1))
                 ev += [k(c, 0) for c in others[:len(perm)]] + [k(c, 0) for c in reversed(perm)]
                 cases.append({"cfg": cfg, "abs": [], "events": ev, "tag": "interleaved"})
+            # disturbances: with all sequence keys but the last held, something happens that must not make the device forget a held
+            # key - a tap of EVERY action key (panic, mapping, octave ...), a tap of a key whose code is congruent to a sequence key modulo
+            # 64 / 32 / 256-wrap neighbours, autorepeat events (value 2) of held sequence keys and of other keys, an up/down chord - then
+            # the last key completes the sequence (must fire), and the same after releasing and re-pressing
+            perm = list(seq)
+            rng.shuffle(perm)
+            held, last = perm[:-1], perm[-1]
+            used = set(seq)
+            disturb = []
+            for a in cfg["actions"]:
+                if a["code"] not in used:
+                    disturb.append(("action-" + a["action"], [k(a["code"], 1), k(a["code"], 0)]))
+            for c in (held or [last]):
+                for d in (64, 128, 32, 192):
+                    x = (c + d) % 256
+                    if x not in used and x != 0:
+                        disturb.append(("alias-%d" % d, [k(x, 1), k(x, 0)]))
+                        break
+            for c in held:
+                disturb.append(("repeat-held", [k(c, 2), k(c, 2)]))
+            disturb.append(("repeat-other", [k(57, 1), k(57, 2), k(57, 0)] if 57 not in used else []))
+            ups = {a["action"]: a["code"] for a in cfg["actions"] if a["code"] not in used}
+            for u, d in (("octave_up", "octave_down"), ("mapping_up", "mapping_down"), ("channel_up", "channel_down")):
+                if u in ups and d in ups:
+                    disturb.append(("chord", [k(ups[u], 1), k(ups[d], 1), k(ups[u], 0), k(ups[d], 0)]))
+                    break
+            for name, dv in disturb:
+                if not dv:
+                    continue
+                ev = [k(c, 1) for c in held] + dv + [k(last, 1), k(last, 0)] + dv + [k(last, 1)] + [k(c, 0) for c in perm]
+                cases.append({"cfg": cfg, "abs": [], "events": ev, "tag": "disturb-" + name.split("-")[0]})
             for _ in range(2 if tier == "quick" else 6):
                 cases.append({"cfg": cfg, "abs": [], "events": devgen.gen_history(rng, cfg, rng.randint(20, 70), avoid_exit=False, p_action=0.4),
                               "tag": "random"})
